@@ -79,6 +79,10 @@ CHECKS = {
    "three on-disk schema trees (single large file; imports in combined mode; imports over distinct go_packages in separate mode) are parsed once in a -race build; ReadFile, Validate, Format and Generate under 6 option sets run 5x sequentially and from 8 goroutines x 20 repetitions on the one shared File, in 3 fresh processes; outputs must be byte-identical within and across processes, the File deep-unchanged, and the race logs empty; overlapping call pairs are counted (9e4 per quick run)",
    "held on the schedules the Go scheduler produced; the race detector is happens-before based, so it reports races between accesses that were executed regardless of timing, not races on paths the workload never ran",
    "runtime monitoring: Go race detector + repeatability/purity oracle over sequential, concurrent and cross-process repetitions"),
+ "C18": ("exploration",
+   "import graphs realised as file trees: exhaustively all 512 digraphs with loops on 3 files in three mode/package configurations and all 4096 loop-free digraphs on 4 files in separate mode (thorough: all 65536 on 4 files with loops, random graphs to 12 files); the real Generate runs in child processes under a CPU budget; separate mode is compared with the harness's own DFS cycle oracle, combined mode declaration-by-declaration with generation from the harness's inlined schema plus codec oracles on a sample; dedicated trees check per-file path resolution and single inlining",
+   "exhaustive for n<=3 (and loop-free n=4 in separate mode), sampled beyond; cycle errors recognised by their text",
+   "runtime monitoring: exhaustive small-graph enumeration with an independent digraph oracle and a differential inlining oracle"),
 }
 DESIGN = {i: "DESIGN.md section 4, %s" % i for i in CHECKS}
 
